@@ -43,7 +43,7 @@ class C09(Check):
                    'well-posed problems use quasi-uniform breakpoints (interval widths within a factor 3) and weights within 3 '
                    'decades, so cond(A^T W A) <~ 1e8 and the 1e-7*max|y| tolerance on fitted values has margin; wildly uneven '
                    'knot vectors legitimately trigger the fit\'s min_influence guard (status -1) and are not asserted to give 0']
-    REQUIRED_COUNTERS = ('status0_optimality_checked', 'wellposed_status0', 'maskpoints_entered', 'cholesky_fallback_entered', 'status_minus1', 'status_minus2',
+    REQUIRED_COUNTERS = ('canary_sequences', 'status0_optimality_checked', 'wellposed_status0', 'maskpoints_entered', 'cholesky_fallback_entered', 'status_minus1', 'status_minus2',
                          'spd_factorisations', 'nonpd_signalled', 'nonfinite_signalled', 'zero_weight_invariance_checked')
     CASE_CPU_S = 60
 
@@ -85,6 +85,11 @@ class C09(Check):
             for a, b in zip(edges[:-1], edges[1:]):
                 xs.append(g.uniform(a + 0.02 * (b - a), b - 0.02 * (b - a), per))
             x = np.sort(np.concatenate(xs + [[0.0, 10.0]]))
+            if rng.random() < 0.3:
+                # repeated abscissae (exposures merged on a common grid, quantised positions): sorted, not strictly increasing
+                j = g.integers(1, x.size - 1, max(1, x.size // 8))
+                x[j] = x[j - 1]
+                x = np.sort(x)
             n = x.size
             w = 10 ** g.uniform(-1.5, 1.5, n)
             zero = g.uniform(size=n) < rng.choice([0, 0.05, 0.1])
@@ -183,6 +188,47 @@ class C09(Check):
         return {'kind': cls, 'mode': mode, 'x': x.tolist(), 'y': y.tolist(), 'w': w.tolist(), 'nord': k, 'nbkpts': nbk}
 
     # ------------------------------------------------------------------ run
+    def canary(self):
+        """Fixed, ordinary calls one after another (see vlib.harness.canary_setup): a not-positive-definite band matrix, an
+        ill-posed fit across a gap (fallback path), a well-posed fit with zero weights, a plain factor/solve pair."""
+        B = self.B
+        g = np.random.default_rng(987)
+        res = []
+
+        def rec(f):
+            try:
+                with warnings.catch_warnings():
+                    warnings.simplefilter('ignore')
+                    res.append(('ok',) + tuple(f()))
+            except Exception as e:
+                res.append(('raised', type(e).__name__, str(e)[:80]))
+        l = np.zeros((2, 8))
+        l[0, :6] = [4, 4, 1e-9, 4, 4, 4]
+        l[1, :5] = [1, 3, 3, 1, 1]
+
+        def bad():
+            e, m = B.cholesky_band(l.copy(), mininf=0.0)
+            return (np.atleast_1d(np.asarray(e)).tobytes(),)
+        rec(bad)
+        x = np.sort(np.concatenate([g.uniform(0, 3, 40), g.uniform(7, 10, 40)]))
+        y = np.sin(x)
+
+        def gap():
+            s = B.bspline(x, nord=4, nbkpts=14)
+            st, yf = s.fit(x, y, np.ones(x.size))
+            return (int(st), np.asarray(s.mask).tobytes(), np.isfinite(s.coeff).all())
+        rec(gap)
+        x2 = np.linspace(0, 10, 90)
+        w2 = np.ones(90)
+        w2[[5, 6, 40]] = 0.0
+
+        def good():
+            s = B.bspline(x2, nord=3, nbkpts=8)
+            st, yf = s.fit(x2, np.cos(x2), w2)
+            return (int(st), np.asarray(s.coeff, dtype='f8').round(10).tobytes())
+        rec(good)
+        return res
+
     def run(self, case, out):
         getattr(self, 'run_' + case['kind'])(case, out)
 
